@@ -482,6 +482,10 @@ type streamingResponseWriter struct {
 	bodyWriter  *io.PipeWriter
 	bodyReader  *io.PipeReader
 
+	// sentAsHeader counts, per declared trailer, the values that the header map held when
+	// the header was sent; those are header values and not part of the trailer.
+	sentAsHeader map[string]int
+
 	// finalTrailer holds the trailer values collected by `Close`. It is written before the
 	// body pipe is closed and only read (by the reader of the body) after that reader has
 	// seen the end of the body.
@@ -544,6 +548,11 @@ func (w *streamingResponseWriter) WriteHeader(status int) {
 		}
 	}
 
+	w.sentAsHeader = make(map[string]int)
+	for k := range w.trailer {
+		w.sentAsHeader[k] = len(w.Header().Values(k))
+	}
+
 	// Filter out hop-by-hop headers.
 	header := make(http.Header)
 	for k, vs := range w.Header() {
@@ -598,7 +607,13 @@ func (w *streamingResponseWriter) Close() error {
 	// collect the trailer values separately and let the reader pick them up.
 	finalTrailer := make(http.Header)
 	for k, _ := range w.trailer {
-		for _, v := range w.Header().Values(k) {
+		vs := w.Header().Values(k)
+		if sent := w.sentAsHeader[k]; sent <= len(vs) {
+			// A field can be both a header and a trailer of the same response; what was
+			// already sent as a header is not repeated as a trailer.
+			vs = vs[sent:]
+		}
+		for _, v := range vs {
 			// The `Values` method does not return a copy, so we manually
 			// add each value one at a time to ensure that subsequent changes
 			// to the header do not affect the trailers map.
